@@ -192,6 +192,7 @@ static bool normalise_action(SutAction& a, const SutView* v) {
 		if (a.mask[31] & 2) a.b = static_cast<uint8_t>(self);
 		a.mask[31] = 0;
 	}
+	if (a.kind != A_PLAN_WALK && a.mask[30] && !sut_typed_available()) a.mask[30] = 0;
 	if (a.kind == A_CHANGE_TO || a.kind == A_CHANGE_WITH || a.kind == A_SUCCEED || a.kind == A_FAIL) a.a = static_cast<uint8_t>(a.a % N);
 	if (a.kind == A_PLAN_APPEND || a.kind == A_PLAN_APPEND_WITH) { a.a = static_cast<uint8_t>(a.a % N); a.b = static_cast<uint8_t>(a.b % N); }
 	if (a.kind == A_CHANGE_TO || a.kind == A_PLAN_APPEND) { a.has_payload = 0; memset(a.payload, 0, sizeof(a.payload)); }
@@ -432,6 +433,7 @@ static void run_simple(int idx, int kind, const Op* op, int op_index) {
 	}
 	paint_stack(W.fill_kind, W.fill_seed ^ static_cast<uint64_t>(op_index));
 	void* I = n.inst;
+	const bool typed = (x.c & 4) && sut_typed_available() && kind != OPX_REPLAY_MSG;
 	if (sigsetjmp(g_hang_jmp, 1) != 0) { g_in_sut = 0; hang_abort(n, idx, x); return; }
 	g_hang_armed = 1;
 	g_in_sut = 1;
@@ -439,12 +441,13 @@ static void run_simple(int idx, int kind, const Op* op, int op_index) {
 	case OP_UPDATE: sut_update(I); break;
 	case OP_REACT: x.a = x.a % 3; sut_react(I, x.a, static_cast<uint64_t>(x.b)); break;
 	case OP_QUERY: x.a = x.a % 3; sut_query(I, x.a, static_cast<uint64_t>(x.b)); break;
-	case OP_CHANGE_TO: x.a = static_cast<int>(static_cast<unsigned>(x.a) % N); sut_change_to(I, x.a); break;
-	case OP_CHANGE_WITH: x.a = static_cast<int>(static_cast<unsigned>(x.a) % N); sut_change_with(I, x.a, x.payload); break;
-	case OP_IMM_CHANGE_TO: x.a = static_cast<int>(static_cast<unsigned>(x.a) % N); sut_immediate_change_to(I, x.a); break;
-	case OP_IMM_CHANGE_WITH: x.a = static_cast<int>(static_cast<unsigned>(x.a) % N); sut_immediate_change_with(I, x.a, x.payload); break;
-	case OP_PLAN_APPEND: x.a = static_cast<int>(static_cast<unsigned>(x.a) % N); x.b = static_cast<int>(static_cast<unsigned>(x.b) % N); x.result = sut_plan_append(I, x.a, x.b); break;
-	case OP_PLAN_APPEND_WITH: x.a = static_cast<int>(static_cast<unsigned>(x.a) % N); x.b = static_cast<int>(static_cast<unsigned>(x.b) % N); x.result = sut_plan_append_with(I, x.a, x.b, x.payload); break;
+	// c bit2: the typed (template) form of the same call
+	case OP_CHANGE_TO: x.a = static_cast<int>(static_cast<unsigned>(x.a) % N); if (typed) sut_change_to_typed(I, x.a, 0, 0); else sut_change_to(I, x.a); break;
+	case OP_CHANGE_WITH: x.a = static_cast<int>(static_cast<unsigned>(x.a) % N); if (typed) sut_change_to_typed(I, x.a, 0, x.payload); else sut_change_with(I, x.a, x.payload); break;
+	case OP_IMM_CHANGE_TO: x.a = static_cast<int>(static_cast<unsigned>(x.a) % N); if (typed) sut_change_to_typed(I, x.a, 1, 0); else sut_immediate_change_to(I, x.a); break;
+	case OP_IMM_CHANGE_WITH: x.a = static_cast<int>(static_cast<unsigned>(x.a) % N); if (typed) sut_change_to_typed(I, x.a, 1, x.payload); else sut_immediate_change_with(I, x.a, x.payload); break;
+	case OP_PLAN_APPEND: x.a = static_cast<int>(static_cast<unsigned>(x.a) % N); x.b = static_cast<int>(static_cast<unsigned>(x.b) % N); x.result = typed ? sut_plan_append_typed(I, x.a, x.b, 0) : sut_plan_append(I, x.a, x.b); break;
+	case OP_PLAN_APPEND_WITH: x.a = static_cast<int>(static_cast<unsigned>(x.a) % N); x.b = static_cast<int>(static_cast<unsigned>(x.b) % N); x.result = typed ? sut_plan_append_typed(I, x.a, x.b, x.payload) : sut_plan_append_with(I, x.a, x.b, x.payload); break;
 	case OP_PLAN_REMOVE_NTH: x.result = sut_plan_remove_nth(I, x.a); break;
 	case OP_PLAN_CLEAR: x.result = sut_plan_clear(I); break;
 	case OP_PLAN_WALK: { static SutTask buf[SUT_MAX_TASKS + 1]; int cnt = 0; sut_plan_walk(I, x.mask, buf, &cnt); g_in_sut = 0; x.walk.assign(buf, buf + cnt); g_in_sut = 1; break; }
@@ -461,8 +464,8 @@ static void run_simple(int idx, int kind, const Op* op, int op_index) {
 			g_in_sut = 0; x.results.push_back(r); x.filled.push_back(ft); g_in_sut = 1;
 		}
 		break; }
-	case OP_SUCCEED: x.a = static_cast<int>(static_cast<unsigned>(x.a) % N); sut_succeed(I, x.a); break;
-	case OP_FAIL: x.a = static_cast<int>(static_cast<unsigned>(x.a) % N); sut_fail(I, x.a); break;
+	case OP_SUCCEED: x.a = static_cast<int>(static_cast<unsigned>(x.a) % N); if (typed) sut_report_typed(I, x.a, 1); else sut_succeed(I, x.a); break;
+	case OP_FAIL: x.a = static_cast<int>(static_cast<unsigned>(x.a) % N); if (typed) sut_report_typed(I, x.a, 0); else sut_fail(I, x.a); break;
 	case OP_SAVE: {
 		g_in_sut = 0;
 		// twice, framed by all-zero and by all-one canaries: an OR-ing or an AND-ing stray write shows in one of them
@@ -478,7 +481,7 @@ static void run_simple(int idx, int kind, const Op* op, int op_index) {
 			x.saved_bytes.resize(g_info->serial_bytes); sut_serial_bytes(&mem[32], &x.saved_bytes[0]);
 			for (size_t i = 0; i < 32; ++i) if (mem[i] != can) x.canary_ok = false;
 			for (size_t i = 32 + g_info->serial_obj_size; i < mem.size(); ++i) if (mem[i] != can) x.canary_ok = false;
-			if (pass == 0) first = x.saved_bytes; else if (first != x.saved_bytes) x.canary_ok = false;
+			if (pass == 0) first = x.saved_bytes; else if (first != x.saved_bytes) x.save_differs = true;
 		}
 		W.snaps.push_back(Snapshot());
 		Snapshot& sn = W.snaps.back(); sn.bytes = x.saved_bytes; sn.active = T.active; sn.state = T.open;
